@@ -5,8 +5,11 @@
 package main
 
 import (
+	"encoding/json"
 	"fmt"
 	"os"
+	"path/filepath"
+	"sort"
 	"strings"
 	"time"
 
@@ -19,6 +22,7 @@ type outcome struct {
 	Backend  string            `json:"backend"`
 	Spec     string            `json:"expected"`
 	Exp8     string            `json:"expected_v8"`
+	Exp9     string            `json:"expected_v9"`
 	Model    map[string]string `json:"model"`
 	Impl     map[string]string `json:"impl"`
 	Dev      string            `json:"deviation_class"`
@@ -28,8 +32,11 @@ type outcome struct {
 }
 
 func (o *outcome) expected(v string) string {
-	if v == "v8" {
+	switch v {
+	case "v8":
 		return o.Exp8
+	case "v9":
+		return o.Exp9
 	}
 	return o.Spec
 }
@@ -37,12 +44,12 @@ func (o *outcome) expected(v string) string {
 // evalReq runs one request on one backend through the three servers and asks the oracle.
 func (e *env) evalReq(be string, r Req) *outcome {
 	t0 := time.Now()
-	rep := e.or.Ask("q "+be+" "+r.line(), 6)
+	rep := e.or.Ask("q "+be+" "+r.line(), 7)
 	tOracle += time.Since(t0)
 	cut := func(s, p string) string { return strings.TrimPrefix(s, p+" ") }
-	o := &outcome{Backend: be, Spec: cut(rep[0], "spec"), Exp8: cut(rep[1], "exp8"),
-		Model: map[string]string{"v8": cut(rep[2], "m8"), "v9": cut(rep[3], "m9"), "v10": cut(rep[4], "m10")},
-		Impl:  map[string]string{}, Dev: cut(rep[5], "dev"), noInput: map[string]bool{}, whatByCl: map[string]string{}}
+	o := &outcome{Backend: be, Spec: cut(rep[0], "spec"), Exp8: cut(rep[1], "exp8"), Exp9: cut(rep[2], "exp9"),
+		Model: map[string]string{"v8": cut(rep[3], "m8"), "v9": cut(rep[4], "m9"), "v10": cut(rep[5], "m10")},
+		Impl:  map[string]string{}, Dev: cut(rep[6], "dev"), noInput: map[string]bool{}, whatByCl: map[string]string{}}
 	idk := "-"
 	if r.ID != nil {
 		idk = r.ID.K
@@ -53,26 +60,41 @@ func (e *env) evalReq(be string, r Req) *outcome {
 		tRPC += time.Since(t1)
 		o.Impl[v] = got
 		exp := o.expected(v)
-		if got != exp {
-			// the property predicate fails on this input
+		// C08_payload_agree evaluated on the observations themselves (independent of the renderings): one
+		// payload per transaction hash / receipt / header, whatever method, version, backend returned it
+		if cl, what := e.agree(v, be, r, got); cl != "" {
+			o.add(cl, what, false)
+		}
+		if got != exp && o.Dev != "orphan-class" {
+			// the property predicate fails on this input. (Dev orphan-class: the class hash was delivered by a
+			// reverted block for something else than a deployed contract or a declaration - never done by the
+			// synchroniser; such requests are compared with the handler model only, below.)
 			cl := fmt.Sprintf("unexpected:%s:%s", r.M, idk)
 			switch {
 			case o.Dev == "txidx-absent-block-number":
 				cl = o.Dev
 			case o.Dev == "state-by-zero-block-hash":
 				cl = zeroHashClass(be, got)
+			case e.revertedDelivery(be, r):
+				// the defect repaired by /repo 007ff78: a definition delivered for a deployed contract's class
+				// survived the revert of its block
+				cl = orphanClass(exp, got)
 			case staleHeadSlot(be, r, exp, got):
 				cl = "new-backend-head-storage:zeroed-slot-reads-stale-value"
+			case payloadKind(got) != "":
+				// a complete returned object equals no independent rendering of what was stored
+				cl = fmt.Sprintf("payload-mismatch:%s:%s", payloadKind(got), r.M)
 			}
-			o.add(cl, fmt.Sprintf("%s %s on %s backend answers %s, the chain demands %s", v, r.line(), be, got, exp), false)
+			o.add(cl, fmt.Sprintf("%s %s on %s backend answers %s, the chain demands %s%s", v, r.line(), be, got, exp, explain(got)), false)
 		}
 		if got != o.Model[v] && !staleHeadSlot(be, r, o.Model[v], got) {
 			o.add(fmt.Sprintf("model-mismatch:%s:%s", r.M, idk),
-				fmt.Sprintf("%s %s on %s backend answers %s, the handler model (C08.Model.handle) %s", v, r.line(), be, got, o.Model[v]), got == exp)
+				fmt.Sprintf("%s %s on %s backend answers %s, the handler model (C08.Model.handle) %s%s", v, r.line(), be, got, o.Model[v], explain(got)), got == exp)
 		}
 	}
 	// versions agree wherever their specifications coincide (v0.8 has no l1_accepted)
-	if o.Impl["v9"] != o.Impl["v10"] || (idk != "l1" && o.Impl["v8"] != o.Impl["v9"]) {
+	// (response_flags exist from v0.10 on: for storageAtLU only v0.8 = v0.9 is demanded)
+	if (r.M != "storageAtLU" && o.Impl["v9"] != o.Impl["v10"]) || (idk != "l1" && o.Impl["v8"] != o.Impl["v9"]) {
 		cl := "versions-disagree:" + r.M + ":" + idk
 		if o.Dev == "state-by-zero-block-hash" {
 			cl = "state-by-zero-block-hash:versions-disagree:" + be
@@ -97,10 +119,65 @@ func zeroHashClass(be, got string) string {
 	if strings.HasPrefix(got, "err:") {
 		return "state-by-zero-block-hash:wrong-error:" + be
 	}
-	if got == "felt:0" {
+	if got == "felt:0" || got == "feltat:0:0" {
 		return "state-by-zero-block-hash:answers-default-value:" + be
 	}
 	return "state-by-zero-block-hash:answers-head-data:" + be
+}
+
+// revertedDelivery: the request asks for a class hash whose definition a since reverted block had delivered for
+// one of its deployed contracts (without declaring it).
+func (e *env) revertedDelivery(be string, r Req) bool {
+	switch r.M {
+	case "class":
+		return e.goneExtra[r.Hash]
+	case "classAt":
+		q := r
+		q.M = "classHashAt"
+		rep := e.or.Ask("q "+be+" "+q.line(), 7)
+		return e.goneExtra[strings.TrimPrefix(rep[0], "spec felt:")]
+	}
+	return false
+}
+
+// A class definition that a reverted block had delivered for the class hash of one of its deployed contracts
+// without declaring it stayed in juno's class table before /repo 007ff78 (RevertHead walked only the block's
+// declared lists). These classes name the three ways it showed.
+func orphanClass(exp, got string) string {
+	switch {
+	case strings.HasPrefix(exp, "err:") && strings.HasPrefix(got, "class:"):
+		return "orphan-class:served-after-revert"
+	case strings.HasPrefix(exp, "class:") && strings.HasPrefix(got, "class:"):
+		return "orphan-class:stale-definition"
+	case strings.HasPrefix(exp, "class:") && strings.HasPrefix(got, "err:"):
+		return "orphan-class:hidden-by-stale-declared-at"
+	}
+	return "orphan-class:other"
+}
+
+// explain adds, for an answer carrying a payload that equals no registered rendering, the returned object and
+// the closest rendering.
+func explain(got string) string {
+	if !strings.Contains(got, "?") {
+		return ""
+	}
+	if e := pay.explain(got); e != "" {
+		if len(e) > 900 {
+			e = e[:900] + "..."
+		}
+		return " {" + e + "}"
+	}
+	return ""
+}
+
+// payloadKind: which kind of object of the answer matched no rendering (tx, rc, hdr, class), or "".
+func payloadKind(got string) string {
+	for _, k := range []string{"tx", "rc", "hdr", "class"} {
+		if strings.Contains(got, "?"+k+".") {
+			return k
+		}
+	}
+	return ""
 }
 
 func (o *outcome) add(class, what string, noInput bool) {
@@ -110,6 +187,67 @@ func (o *outcome) add(class, what string, noInput bool) {
 	o.Classes = append(o.Classes, class)
 	o.whatByCl[class] = what
 	o.noInput[class] = noInput
+}
+
+// agree records the (transaction hash, payload), (transaction hash, receipt payload) and (block hash, header
+// payload) pairs of a projected answer and reports the first disagreement with an earlier observation.
+// Transaction and receipt payloads are version independent wherever the specifications coincide (they do for
+// every stored transaction / receipt, see render.go); headers are compared per version (v0.10 has more members).
+func (e *env) agree(v, be string, r Req, got string) (string, string) {
+	if e.seen == nil {
+		e.seen = map[string][2]string{}
+	}
+	where := v + " " + r.line() + " (" + be + ")"
+	note := func(kind, key, p string) (string, string) {
+		// an unmatched payload is compared by its digest marker; a matched one by its id
+		k := kind + "|" + key
+		if old, ok := e.seen[k]; ok {
+			if old[0] != p {
+				return "payload-disagree:" + kind + ":" + r.M, fmt.Sprintf("%s of %s: %s has payload %s, %s had %s%s", kind, key, where, p, old[1], old[0], explain(p+" "+old[0]))
+			}
+			return "", ""
+		}
+		e.seen[k] = [2]string{p, where}
+		return "", ""
+	}
+	f := strings.Split(got, ":")
+	first := func(a, b [2]string) (string, string) {
+		if a[0] != "" {
+			return a[0], a[1]
+		}
+		return b[0], b[1]
+	}
+	var res [2]string
+	keep := func(c, w string) { res[0], res[1] = first(res, [2]string{c, w}) }
+	switch f[0] {
+	case "blk", "blkt", "blkr":
+		if len(f) < 7 {
+			return "", ""
+		}
+		keep(note("header", v+"/"+f[2]+"/"+f[4], f[5]))
+		if f[6] == "-" {
+			break
+		}
+		for _, it := range strings.Split(f[6], ",") {
+			x := strings.Split(it, "/")
+			switch {
+			case f[0] == "blkt" && len(x) == 2:
+				keep(note("tx", x[0], x[1]))
+			case f[0] == "blkr" && len(x) == 6:
+				keep(note("tx", x[0], x[4]))
+				keep(note("receipt", x[0], x[5]))
+			}
+		}
+	case "tx":
+		if len(f) == 3 {
+			keep(note("tx", f[1], f[2]))
+		}
+	case "rc":
+		if len(f) == 8 {
+			keep(note("receipt", f[1], f[7]))
+		}
+	}
+	return res[0], res[1]
 }
 
 func runOps(or *hx.Oracle, ops []Op) (*env, string) {
@@ -218,7 +356,7 @@ func main() {
 		c.Finish("replay of one recorded case")
 	}
 
-	nscen, nops, sample := 14, 9, 40
+	nscen, nops, sample := 20, 9, 40
 	if c.Thorough() {
 		nscen, nops, sample = 300, 16, 120
 	}
@@ -242,6 +380,9 @@ func main() {
 					ak = o.Spec
 				}
 				c.Hist["expected:"+ak]++
+				if o.Dev == "orphan-class" {
+					c.Hist["misuse-delivery:model-only"]++
+				}
 				nontrivial := ak != "num" && ak != "hn" && (strings.HasPrefix(ak, "err") || t.kind != "number-existing" || strings.Contains(o.Spec, "L1"))
 				c.Count(e.stateKey()+"|"+be+"|"+t.line(), nontrivial)
 				if c.Evaluations%997 == 1 {
@@ -253,9 +394,42 @@ func main() {
 			}
 		}
 	}
-	for s := 0; s < nscen; s++ {
+	// corpus: recorded minimal cases (regressions of repaired defects: they must pass)
+	if files, _ := filepath.Glob("/verif/corpus/C08/*.json"); len(files) > 0 {
+		sort.Strings(files)
+		for _, f := range files {
+			b, err := os.ReadFile(f)
+			hx.Must(err)
+			var w struct {
+				Class  string `json:"class"`
+				Replay replay `json:"replay"`
+			}
+			hx.Must(json.Unmarshal(b, &w))
+			e, msg := runOps(or, w.Replay.Ops)
+			if msg != "" {
+				c.Violation("op-failed:corpus", filepath.Base(f)+": "+msg, w.Replay, true)
+				continue
+			}
+			rq, _ := e.reresolve(w.Replay.Req)
+			o := e.evalReq(w.Replay.Backend, rq)
+			c.Hist["corpus"]++
+			c.Count("corpus|"+filepath.Base(f), true)
+			if len(o.Classes) > 0 {
+				report(w.Replay.Ops, w.Replay.Backend, rq, o)
+			}
+		}
+	}
+	directed := directedScenarios()
+	for s := 0; s < nscen+len(directed); s++ {
 		rr := r.Fork(uint64(s))
-		ops := genScenario(rr, 3+rr.Intn(nops))
+		var ops []Op
+		if s < len(directed) {
+			ops = directed[s]
+			c.Hist["scenario:directed"]++
+		} else {
+			ops = genScenario(rr, 3+rr.Intn(nops))
+			c.Hist["scenario:random"]++
+		}
 		e := newEnv(or)
 		live = e
 		failed := false
@@ -271,7 +445,11 @@ func main() {
 			}
 			if i < len(ops)-1 { // a sample of the universe after every op
 				u := len(e.universe(false))
-				sweep(e, ops[:i+1], rr, false, 1+sample*100/(u+1))
+				k := 1 + sample*100/(u+1)
+				if s < len(directed) {
+					k *= 4 // the directed histories are short: look closer after every step
+				}
+				sweep(e, ops[:i+1], rr, false, k)
 			}
 		}
 		if failed {
@@ -287,6 +465,12 @@ func main() {
 			sweep(e, all, rr, true, 100)
 		}
 	}
+	for m, t := range pay.misses {
+		if strings.HasPrefix(m, "ambiguous:") {
+			c.Extra[m] = t // two different stored objects render identically in one version (never with the generated content)
+		}
+	}
+	c.Extra["payloads_registered"] = pay.next - 1
 	c.Extra["scenarios"] = nscen
 	c.Extra["oracle_s"] = tOracle.Seconds()
 	c.Extra["rpc_s"] = tRPC.Seconds()
@@ -294,6 +478,6 @@ func main() {
 	c.Extra["state_backends"] = backends
 	c.Finish("requests of every modelled read method through Server.HandleReader (named and positional params) over store/revert/set-L1 histories; " +
 		"identifiers: every existing / absent number, every current, reverted, unknown and zero hash, latest, l1_accepted; every tx hash (current, reverted, unknown) " +
-		"and index -1..max; contracts 0xa..0xf x slots 5..8; classes 0x384..0x388; non-trivial = expected answer is an error, or the identifier is not an existing number, " +
+		"and index -1..max; contracts 0xa..0xf x slots 5..8, getStorageAt also with INCLUDE_LAST_UPDATE_BLOCK; class hashes 0x384..0x388 (Cairo-0) and three Sierra hashes; every answer carries the complete transaction / receipt / header / class objects as payload ids (canonical JSON = independent rendering of what was stored); non-trivial = expected answer is an error, or the identifier is not an existing number, " +
 		"or finality is ACCEPTED_ON_L1; distinct by (op list, backend, request)")
 }
